@@ -328,7 +328,7 @@ static int h_readback(const char *path, const cfg_t *c, char *err)
         for (int i = 0; i < Mn[s]; i++, e = dbp_iterator_next(it)) {
             const mev_t *m = &M[s][i];
             if (!e) FAIL("reader: stream %d ends after %d events, %d were written (first missing: #%d key %s %s)", s, i, Mn[s], m->gidx, KNAME[m->kidx], m->isend ? "end" : "begin");
-            if (h_verbose) printf("    stream %d event %d: written key=%d flags=0x%x id=0x%llx tp=0x%x ilen=%d | read key=%d flags=0x%x id=0x%llx tp=0x%x ilen=%d ts=%llu\n", s, i, m->ukey, m->flags, (unsigned long long)m->eid, m->tp, m->ilen,
+            if (h_verbose && (i < 16 || (i % 1024) == 0)) printf("    stream %d event %d: written key=%d flags=0x%x id=0x%llx tp=0x%x ilen=%d | read key=%d flags=0x%x id=0x%llx tp=0x%x ilen=%d ts=%llu\n", s, i, m->ukey, m->flags, (unsigned long long)m->eid, m->tp, m->ilen,
                                   dbp_event_get_key(e), dbp_event_get_flags(e), (unsigned long long)dbp_event_get_event_id(e), dbp_event_get_taskpool_id(e), dbp_event_info_len(e, f), (unsigned long long)dbp_event_get_timestamp(e));
             if (dbp_event_get_key(e) != m->ukey) FAIL("reader: stream %d event %d has key %d, written %d (%s %s)", s, i, dbp_event_get_key(e), m->ukey, KNAME[m->kidx], m->isend ? "end" : "begin");
             if (dbp_event_get_event_id(e) != m->eid) FAIL("reader: stream %d event %d has event_id 0x%llx, written 0x%llx", s, i, (unsigned long long)dbp_event_get_event_id(e), (unsigned long long)m->eid);
